@@ -45,7 +45,7 @@ CLAIMED['C06'] = ("runtime monitor: encoding/json as independent syntax/shape re
   "forced-loss model is the harness's reading of the statement; documents with nulls/missing members are judged only for absence of panics", "DESIGN.md §3 C06")
 CLAIMED['C07'] = ("reference-model monitor: exact rational snapping oracle for decode(encode(g,p)), independent varint-level TWKB reader for size/bbox/id-list headers, header-only readers vs full decode, closed-world error monitor on MarshalTWKB",
   "Exploration by runtime monitoring: thousands of valid geometries per run (7 types x 4 coordinate types, empty members, nested collections, ordinates k/10^q) are encoded under 8-16 draws of precisions (-8..7 / 0..7) and all 16 option subsets; the bytes are decoded by the library and by an independent reader and every ordinate is compared with the exactly rounded value; rejection families drive out-of-range precisions and mismatched ID lists.",
-  "half-way rounding cases within the stated margin accept either neighbour; rings that collapse under coarse precision are skipped and counted; ID lists are not generated where the format cannot express them", "DESIGN.md §3 C07")
+  "half-way rounding cases within the stated margin accept either neighbour; rings that collapse under coarse precision are skipped and counted; for a MultiPoint that drops empty Points the IDs of the surviving members are expected back (or a refusal)", "DESIGN.md §3 C07")
 CLAIMED['C08'] = ("process-level runtime monitoring: every decoder entry point is driven with enumerated corruptions inside sacrificial worker processes (RLIMIT_AS ceiling, journal of the input before each call); monitors: recovered panics, worker death attributed by the driver, cumulative heap-allocation delta per call, Validate() of what is returned, re-encoding; thorough tier adds an AddressSanitizer build",
   "Fault enumeration by runtime monitoring: for a corpus of valid encodings of every type in WKB/TWKB/WKT/GeoJSON the check enumerates every truncation, every byte value at header/type/count/flag positions (field maps from independent codecs), boundary values elsewhere, every 4-byte count and varint overwritten with the extreme values, splices, PRNG byte strings up to 64 KiB, token mutations and deep nesting (about 0.86 M inputs / 7 M decoder calls in quick). Holds for the inputs enumerated.",
   "allocation bound 64 MiB + 8192*len fixed in advance; time is not judged; the address-space limit is 8 GiB (not combinable with the ASan variant, where the allocation monitor is the backstop)", "DESIGN.md §3 C08")
@@ -61,12 +61,16 @@ CLAIMED['C17'] = ("contract monitors with exact arithmetic: subsequence/on-segme
 CLAIMED['C20'] = ("runtime monitoring by reflection: every exported method of the ten value types (enumerated at run time) and a table of free functions are invoked over an emptiness pool under recover(); neutral-answer monitors; digest comparison zero Geometry vs empty collection; metamorphic transparency monitor for inserted empty members (predicates, matrix, measures bitwise; set-operation point sets through the exact oracle)",
   "Exploration by runtime monitoring: ~340 distinct receiver.method pairs x pool arguments (about 60k method calls), 24 free functions over all ordered pairs of a 49-member pool (about 60k calls), neutral answers for every pool empty against non-empty partners, and thousands of non-empty geometries per run with an empty member of every admissible type inserted at every position.",
   "documented panics are an explicit table (MustAs* on another type, index accessors only with in-range indices); Dimension() itself is not compared under insertion", "DESIGN.md §3 C20")
-CLAIMED['C10'] = ("Go race detector (-race build, reports counted and deduplicated from GORACE log files) over 2/4/8/16 goroutines sharing operands without synchronisation; plus purity/determinism monitors: operand snapshots around every call, 24-64 in-process repetitions per call (fresh map iteration orders), digest tables recomputed in separate worker processes (different GOMAXPROCS/sharding) and compared by the driver",
+CLAIMED['C10'] = ("constructor/accessor aliasing monitors (caller slices passed to constructors and slices returned by accessors are overwritten and both sides re-observed); Go race detector (-race build, reports counted and deduplicated from GORACE log files) over 2/4/8/16 goroutines sharing operands without synchronisation; plus purity/determinism monitors: operand snapshots around every call, 24-64 in-process repetitions per call (fresh map iteration orders), digest tables recomputed in separate worker processes (different GOMAXPROCS/sharding) and compared by the driver",
   "Exploration by runtime monitoring: an operation table of the public read API (40 geometry operations + R-tree searches) runs over a pool of shared valid operands (incl. shapes whose result rings/lines tie on their first vertex) - about 1.9k calls x 25-65 repetitions, every digest recomputed in a second set of processes, and about 90k concurrent calls under the race detector with the measured number of call pairs that overlapped on the same operand reported in the evidence. No race report and identical digests on everything observed.",
   "races are only visible on paths the table drives; repetition samples map orders, it does not enumerate them", "DESIGN.md §3 C10")
 CLAIMED['C03'] = ("reference-model monitor: definitional exact-arithmetic validity/simplicity oracle (two independent connectedness criteria) compared with Validate/IsSimple/IsRing/IsClosed and with the validating decoders; metamorphic monitor over every representation (ring rotation, direction, hole/member permutation, translation, reflection)",
   "Exploration by runtime monitoring with exhaustive sub-spaces: tens of thousands of unvalidated lattice candidates per run with vertex-sharing bias and targeted families (hole-in-hole sharing a vertex, touch chains, repeated vertices) under 8-24 representations each; every closed 3- and 4-vertex ring of the 3x3 grid; pairs of lattice triangles of the 4x4 grid as shell+hole and as members; pairs of triangular holes in a fixed shell under all 36 start/direction representations (strided in quick, complete in thorough); NaN/Inf at every ordinate position.",
   "lattice inputs only (both sides exact); cases where the oracle's two connectedness criteria disagree are skipped and counted (none observed)", "DESIGN.md §3 C03")
+CONCRETE = ['C03','C04','C05','C06','C12','C13','C14','C15','C16','C17']
+for _i in CONCRETE:
+    _t = CLAIMED[_i]
+    CLAIMED[_i] = (_t[0] + '; differential monitor between the Geometry method and the concrete type\'s method of the same name (second entry point)', _t[1], _t[2], _t[3])
 REASONS = {}
 hooks_commits = subprocess.run(['git','-C','/repo','log','--format=%h %s'],capture_output=True,text=True).stdout.splitlines()
 hook_commits = [l.split()[0] for l in hooks_commits if l.split(' ',1)[1].startswith('verif hook')]
